@@ -71,6 +71,9 @@ def r_detect(ds):
     return out
 
 
+BUILTIN_NAMES = ["CFGrid1D", "CFGrid2D", "ShocSimple", "ShocStandard", "UGrid"]
+
+
 def winner(matches):
     best = None
     for name, spec in matches:
@@ -191,7 +194,20 @@ def check_registration(case, ctx):
             return value
         synthetic.append(type(f"Synthetic{k}", (base_cls,), {
             "check_dataset": classmethod(check_dataset)}))
-    order = [synthetic[k % len(synthetic)] for k in case["order"]] if synthetic else []
+    # an entry of the order is a synthetic class (by number) or the name of a built-in class:
+    # registering a class that is already known through its entry point must move it to the front
+    order = []
+    for k in case["order"]:
+        if isinstance(k, str):
+            order.append(getattr(emsarray.conventions, k))
+        elif synthetic:
+            order.append(synthetic[k % len(synthetic)])
+    builtin_values = dict(builtin)
+
+    def value_of(cls):
+        if cls in synthetic:
+            return case["synthetic"][synthetic.index(cls)]["specificity"]
+        return builtin_values.get(cls.__name__)
     saved = _registry.registry
     fresh = _registry.ConventionRegistry()
     _registry.registry = fresh
@@ -209,7 +225,7 @@ def check_registration(case, ctx):
                 registered.append(cls)
             candidates = []
             for reg in registered:
-                value = case["synthetic"][synthetic.index(reg)]["specificity"]
+                value = value_of(reg)
                 if value is not None:
                     candidates.append((reg.__name__, value))
             candidates += builtin
@@ -345,7 +361,9 @@ def registration_cases(draw):
     n = draw(st.integers(0, 4))
     synthetic = [{"specificity": draw(st.sampled_from([None, 5, 10, 20, 30, 30, 40]))}
                  for _ in range(n)]
-    order = draw(st.lists(st.integers(0, 7), min_size=n, max_size=n + 2)) if n else []
+    step = st.integers(0, 7) if n else st.nothing()
+    step = st.one_of(step, step, st.sampled_from(BUILTIN_NAMES)) if n else st.sampled_from(BUILTIN_NAMES)
+    order = draw(st.lists(step, min_size=n, max_size=n + 3))
     return {"spec": draw(SIMPLE_SPEC), "synthetic": synthetic, "order": order}
 
 
